@@ -317,7 +317,12 @@ func (eval RingPackingEvaluator) repack(cts map[int]*Ciphertext, naive bool) (ct
 	// ciphertexts in a base-2 tree-like fashion by evaluating
 	// ctN[X] = ctEvenNHalf[Y] + X * ctOddNHalf[Y] where Y = X^2.
 	for _, i := range keys {
-		ctsSmallN[i&(NFactor-1)][i/NFactor] = cts[i]
+		if naive {
+			// merged in place below: on a copy
+			ctsSmallN[i&(NFactor-1)][i/NFactor] = cts[i].CopyNew()
+		} else {
+			ctsSmallN[i&(NFactor-1)][i/NFactor] = cts[i]
+		}
 	}
 
 	// Map of repacked ciphertext that will then be merged together.
@@ -639,6 +644,17 @@ func (eval RingPackingEvaluator) Pack(cts map[int]*Ciphertext, inputLogGap int, 
 
 	if len(cts) == 0 {
 		return nil, fmt.Errorf("len(cts) = 0")
+	}
+
+	// The merging below works inside the map (it rescales and accumulates into its
+	// ciphertexts and removes entries): it is given copies, the map and the
+	// ciphertexts of the caller are left as they are.
+	in := cts
+	cts = make(map[int]*Ciphertext, len(in))
+	for i, ct := range in {
+		if ct != nil {
+			cts[i] = ct.CopyNew()
+		}
 	}
 
 	keys := utils.GetSortedKeys(cts)
